@@ -2,3 +2,4 @@ import BufProofs.Props.C13
 import BufProofs.Props.C14
 import BufProofs.Props.C15
 import BufProofs.Props.C19
+import BufProofs.Props.C09
